@@ -246,6 +246,12 @@ var storageModuleAddr = func() string {
 	return authtypes.NewModuleAddress(storagetypes.ModuleName).String()
 }()
 
+// moduleAddr is the address of the module account with that name.
+func moduleAddr(name string) string {
+	chain.InitConfig()
+	return authtypes.NewModuleAddress(name).String()
+}
+
 var feeCollectorAddr = func() string {
 	chain.InitConfig()
 	return authtypes.NewModuleAddress(authtypes.FeeCollectorName).String()
